@@ -151,8 +151,8 @@ class Canon:
 class Scenario:
     """procs: list of command lists, e.g. [["create -"], ["open -", "drop 0"]]"""
 
-    def __init__(self, name, pat, timeout_ms, procs, trace=True):
-        self.name, self.pat, self.timeout_ms, self.procs, self.trace = name, pat, timeout_ms, procs, trace
+    def __init__(self, name, pat, timeout_ms, procs, trace=True, fault=None):
+        self.name, self.pat, self.timeout_ms, self.procs, self.trace, self.fault = name, pat, timeout_ms, procs, trace, fault
 
 
 _run_ctr = [0]
@@ -169,7 +169,7 @@ def g2_run(sc, chooser, exe, max_calls=600, stall=None, yield_spins=True):
     prefix = "c06g2_%s_" % tag
     canon = Canon(root, prefix)
     ticks = 0 if sc.timeout_ms == 0 else 2000
-    lines = ["C g2 pat=%s T=%d def=%s" % (sc.pat, ticks, DEFAULTS[sc.pat])]
+    lines = ["C g2 pat=%s T=%d def=%s%s" % (sc.pat, ticks, DEFAULTS[sc.pat], " fault=dyn" if sc.fault else "")]
     results = {}
     stalled = None
     names = ["p%d" % i for i in range(len(sc.procs))]
@@ -229,10 +229,18 @@ def g2_run(sc, chooser, exe, max_calls=600, stall=None, yield_spins=True):
                     spun.clear()
                     enabled = sorted(pend)
                 pick = chooser(enabled, last if last in enabled else None)
-                c, r, e = ctl.step(pick)
+                pc_ = pend[pick]
+                if sc.fault and pc_.call == "shm_open" and "O_CREAT" in pc_.args.get("flags", "") and pc_.path.endswith(".dynamic"):
+                    c, r, e = ctl.fail(pick, sc.fault)       # fault injection: the creation of the dynamic config fails
+                    injected = True
+                else:
+                    c, r, e = ctl.step(pick)
+                    injected = False
                 total += 1
                 ncalls[pick] += 1
                 text = canon.line(pick, c)
+                if injected:
+                    text = " ".join(text.split(" ")[:2] + ["fail"])
                 lines.append("X %d %s" % (names.index(pick), text))
                 if canon.is_spin(text) and yield_spins:
                     spun.add(pick)
@@ -330,6 +338,7 @@ def scenarios(th):
     s.append(("seq", Scenario("seq-three", "ps", T_INF, [["create " + A], ["open -"], ["open -", "ooc -", "create -"]])))
     s.append(("seq", Scenario("seq-event", "ev", T_INF, [["ooc v=2,-,-,2,-,-,-,-", "drop 0"], ["ooc -", "open v=3,-,-,-,-,-,-,-", "drop 0"]])))
     s.append(("seq", Scenario("seq-timeout0", "ps", 0, [["ooc " + A, "open -", "drop 1", "drop 0"], ["open -", "ooc " + B]])))
+    s.append(("seq", Scenario("seq-dyn-fault", "ps", T_INF, [["create " + A], ["open -"]], fault="ENFILE")))
     s.append(("seq", Scenario("seq-slice-zero", "ps", T_INF, [["create ty=4;v=-,-,-,-,-,-,0", "open ty=4", "create ty=4"]])))
     # races
     s.append(("race", Scenario("create-create", "ps", T_INF, [["create " + A], ["create " + B]])))
@@ -389,7 +398,7 @@ def g2_stage(ctx, exe):
     th = ctx.thorough()
     stats = {"executions": 0, "calls": 0, "scenarios": {}, "outcomes": {}}
     t0 = time.time()
-    budget = 900 if th else 110
+    budget = 900 if th else 60
     for kind, sc in scenarios(th):
         if time.time() - t0 > budget:
             ctx.notes.append("G2: time budget reached before scenario " + sc.name)
@@ -407,7 +416,8 @@ def g2_stage(ctx, exe):
         else:
             bound = (2 if sc.name in ("create-open", "ooc-ooc", "drop-ooc") else 1) + 1 if th else 1
             left = max(3, int((budget - (time.time() - t0)) / 4))
-            n, calls, bad, outcomes = g2_explore(sc, bound, exe, 4000 if th else min(24, left))
+            # quick: the first schedules of every race (default schedule and the earliest preemptions); the full enumeration is thorough
+            n, calls, bad, outcomes = g2_explore(sc, bound, exe, 4000 if th else min(8, left))
             stats["executions"] += n
             stats["calls"] += calls
             stats["scenarios"][sc.name] = {"executions": n, "preemption_bound": bound, "outcomes": outcomes}
@@ -581,8 +591,17 @@ def run(ctx):
         cleanup()
 
 
+def stage(ctx, name, t0):
+    dt = round(time.time() - t0, 1)
+    ctx.cov.setdefault("stage_wall_s", {})[name] = dt
+    ctx.log("stage %-22s %6.1f s" % (name, dt))
+    return time.time()
+
+
 def run_inner(ctx):
+    ts = time.time()
     proof_ok = vlib.proof_stage(ctx)
+    ts = stage(ctx, "proof", ts)
     ok, out = vlib.ocaml_driver("C06")
     if not ok:
         ctx.violation("extracted model / OCaml driver does not build", {"log": out}, no_input=True)
@@ -600,10 +619,18 @@ def run_inner(ctx):
     gatectl.build()
     th = ctx.thorough()
     seed = str(ctx.seed)
+    ts = stage(ctx, "build (ocaml, cargo g3/g2, libgate)", ts)
 
     # ---- G3 ----
     jobs = []
     nr = 400 if th else 30
+    # regressions first: a create that fails after the static config was written leaves nothing behind (seed C06b:
+    # ownership of the static config released too early), through the public API, ipc and local
+    for svc in ("ipc", "local"):
+        jobs.append(("regression:failing-create:ps:" + svc, [g3exe, "one", svc, "ps", "lib", "3", "create_0_ty=5", "open_1_-", "ooc_2_ty=5",
+                     "create_0_v=2,-,-,-,-,-,-", "open_1_-", "open_2_v=2,-,-,-,-,-,-", "drop_0", "drop_0", "drop_0", "open_1_-"]))
+        jobs.append(("regression:failing-create:bb:" + svc, [g3exe, "one", svc, "bb", "lib", "3", "create_0_dk", "open_1_-", "create_2_dk",
+                     "create_0_v=3,-", "open_1_-", "open_2_v=3,-", "drop_0", "drop_0", "drop_0", "open_1_-"]))
 
     def hist(svc, pat, nn, ln, nsh):
         for i in range(nsh):
@@ -621,14 +648,17 @@ def run_inner(ctx):
             hist("ipc", pat, 3, 5, 16)
             hist("local", pat, 3, 5, 8)
         else:
-            # quick: the whole matrix on the local service type (no file system traffic), every 8th case on ipc
+            # quick: the whole matrix on the local service type (no file system traffic), every 4th case on ipc
             for dm in ("lib", "small1"):
                 for i in range(2):
-                    jobs.append(("matrix:%s:%s:local:%d" % (pat, dm, i), [g3exe, "matrix", "local", pat, dm, str(i), "2", seed, str(nr)]))
-            jobs.append(("matrix:%s:lib:ipc:0of8" % pat, [g3exe, "matrix", "ipc", pat, "lib", "0", "8", seed, str(nr)]))
+                    jobs.append(("matrix:%s:%s:local:%d" % (pat, dm, i), [g3exe, "matrix", "local", pat, dm, str(i), "2", seed, str(nr if dm == "lib" else 0)]))
+            jobs.append(("matrix:%s:lib:ipc:0of4" % pat, [g3exe, "matrix", "ipc", pat, "lib", "0", "4", seed, str(nr)]))
             hist("local", pat, 3, 4 if pat in ("ps", "ev") else 3, 2)
             hist("ipc", pat, 2, 3, 1)
+    if not th:
+        hist("ipc", "ps", 3, 3, 2)
     r = vlib.run_pipelines(jobs, DRIVER, timeout=2400)
+    ts = stage(ctx, "G3 (%d jobs)" % len(jobs), ts)
     cleanup()
     os.makedirs(BASE, exist_ok=True)
     ctx.cov.update({
@@ -644,7 +674,7 @@ def run_inner(ctx):
                 "creator with 1/1 (error priority), all payload/key type x type pairs (name, size, alignment 8/16, slice) also combined with a failing field, "
                 "attribute define x require x require_key sets, creation-time validity (safe_overflow x buffer x history; blackboard without entries), and "
                 "seeded random full settings; each with the library defaults and with all numeric defaults = 1. distinct = distinct (pattern, defaults, history)" %
-                ("length 5 with 1..3 nodes (ipc and local)" if th else "quick tier: length 3-4 with 3 nodes (local), length 3 with 2 nodes (ipc), the matrix on local::Service and every 8th case on ipc::Service; the thorough tier runs length 5 with 1..3 nodes and the full matrix on both"),
+                ("length 5 with 1..3 nodes (ipc and local)" if th else "quick tier: length 3-4 with 3 nodes (local), length 3 with 2 nodes (ipc), the matrix on local::Service and every 4th case on ipc::Service; the thorough tier runs length 5 with 1..3 nodes and the full matrix on both"),
         "exhaustive": False,
     })
     samples = []
@@ -672,8 +702,11 @@ def run_inner(ctx):
 
     # ---- witnesses of refuted clauses on the real code, then G2 ----
     witness_stage(ctx, g2exe, g3exe)
+    ts = stage(ctx, "witnesses/regressions (G2)", ts)
     g1_stage(ctx)
+    ts = stage(ctx, "G1 registry", ts)
     g2_stage(ctx, g2exe)
+    ts = stage(ctx, "G2 scripts + races", ts)
 
     if not proof_ok and not ctx.violations:
         ctx.violation("proof obligation no longer checks: %s" % ctx.broken, {"broken": ctx.broken}, no_input=True)
